@@ -186,13 +186,17 @@ func (fr *frame) contractCall(v ssa.Value, callee *ssa.Function, ct *Contract, a
 		}
 	}
 	for k, rq := range ct.Requires {
-		t, err := env.boolExpr(rq.E)
+		t, extra, err := env.goal(rq.E)
 		if err != nil {
 			u.bindingError(fmt.Sprintf("precondition %d of %s: %v", k+1, ct.Key, err))
 			continue
 		}
-		fr.oblige("pre", fmt.Sprintf("precondition of %s: %s", ct.Key, rq.Src), pos.Pos(), t)
-		fr.assume(t)
+		if o := fr.obligeO("pre", fmt.Sprintf("precondition of %s: %s", ct.Key, rq.Src), pos.Pos(), t); o != nil {
+			o.Extra = extra
+		}
+		if t2, err := env.boolExpr(rq.E); err == nil {
+			fr.assume(t2)
+		}
 	}
 	// havoc
 	if !ct.HasMod {
@@ -209,6 +213,15 @@ func (fr *frame) contractCall(v ssa.Value, callee *ssa.Function, ct *Contract, a
 		rs = append(rs, fr.freshOfType(fmt.Sprintf("%s_r%d", callee.Name(), i), res.At(i).Type()))
 	}
 	post := &specEnv{u: u, st: fr.st, old: pre, vars: env.vars, pkgPath: ct.PkgPath, callee: callee, results: rs}
+	if len(ct.GhostMaps) > 0 {
+		post.ghost = map[string]string{}
+		for _, g := range ct.GhostMaps {
+			sym := u.fresh("ghost_" + g)
+			u.emit("(declare-fun %s (%s) %s)", sym, u.mode.idxSort(), u.mode.idxSort())
+			post.ghost[g] = sym
+			u.ghostSyms = append(u.ghostSyms, sym)
+		}
+	}
 	for k, en := range ct.Ensures {
 		t, err := post.boolExpr(en.E)
 		if err != nil {
@@ -216,6 +229,7 @@ func (fr *frame) contractCall(v ssa.Value, callee *ssa.Function, ct *Contract, a
 			continue
 		}
 		fr.assume(t)
+		post.recordHyps(en.E, fr.cur)
 	}
 	if ct.Trusted {
 		u.note("trusted contract used: %s", ct.Key)
@@ -232,14 +246,18 @@ func (fr *frame) havocKey(mk string, env *specEnv) {
 		return
 	}
 	if _, ok := u.keySort[mk]; ok {
-		fr.st.set(mk, u.declConst(fr.tag("hv_"+mk), u.keySort[mk]))
+		c := u.declConst(fr.tag("hv_"+mk), u.keySort[mk])
+		u.heapTyping(mk, c)
+		fr.st.set(mk, c)
 		return
 	}
 	// expression forms
 	e, err := ParseSpec(mk)
 	if err == nil {
 		if key, ok := env.keyOfLValue(e); ok {
-			fr.st.set(key, u.declConst(fr.tag("hv_"+key), u.keySort[key]))
+			c := u.declConst(fr.tag("hv_"+key), u.keySort[key])
+			u.heapTyping(key, c)
+			fr.st.set(key, c)
 			return
 		}
 	}
@@ -281,7 +299,9 @@ func (fr *frame) unknownCall(v ssa.Value, name string, args []Val, sig *types.Si
 			switch tt := a.typ.Underlying().(type) {
 			case *types.Slice:
 				k := u.keyM(tt.Elem())
-				fr.st.set(k, u.declConst(fr.tag("hv_"+k), u.keySort[k]))
+				c := u.declConst(fr.tag("hv_"+k), u.keySort[k])
+				u.heapTyping(k, c)
+				fr.st.set(k, c)
 				touched = true
 			case *types.Pointer:
 				if a.ptr != nil && (a.ptr.kind == pLocal) {
@@ -374,13 +394,17 @@ func (fr *frame) contractCallSig(v ssa.Value, ct *Contract, sig *types.Signature
 		}
 	}
 	for k, rq := range ct.Requires {
-		t, err := env.boolExpr(rq.E)
+		t, extra, err := env.goal(rq.E)
 		if err != nil {
 			u.bindingError(fmt.Sprintf("precondition %d of %s: %v", k+1, ct.Key, err))
 			continue
 		}
-		fr.oblige("pre", fmt.Sprintf("precondition of %s: %s", ct.Key, rq.Src), pos.Pos(), t)
-		fr.assume(t)
+		if o := fr.obligeO("pre", fmt.Sprintf("precondition of %s: %s", ct.Key, rq.Src), pos.Pos(), t); o != nil {
+			o.Extra = extra
+		}
+		if t2, err := env.boolExpr(rq.E); err == nil {
+			fr.assume(t2)
+		}
 	}
 	if !ct.HasMod {
 		fr.havocAll("call to " + name + " (contract without modifies clause)")
@@ -402,6 +426,7 @@ func (fr *frame) contractCallSig(v ssa.Value, ct *Contract, sig *types.Signature
 			continue
 		}
 		fr.assume(t)
+		post.recordHyps(en.E, fr.cur)
 	}
 	u.note("assumed contract used: %s", ct.Key)
 	return resultVal(v, rs)
@@ -432,6 +457,7 @@ func (fr *frame) dynamicCall(v ssa.Value, c *ssa.CallCommon, fv Val) Val {
 					continue
 				}
 				fr.assume(t)
+				env.recordHyps(cl.E, fr.cur)
 			}
 			u.note("%s: callback %s assumed to satisfy its callback clause and to leave the modelled heap unchanged", fr.fn.Name(), p.Name())
 			return resultVal(v, rs)
@@ -498,8 +524,8 @@ func (fr *frame) builtin(b *ssa.Builtin, c *ssa.CallCommon, pos ssa.Instruction)
 		k := fr.term(fr.val(c.Args[1]))
 		kd, kl := u.keyMapDom(mt), u.keyMapLen()
 		d, l := fr.st.get(u, kd), fr.st.get(u, kl)
-		fr.st.set(kl, fmt.Sprintf("(store %s %s (ite (select (select %s %s) %s) (- (select %s %s) 1) (select %s %s)))", l, mm, d, mm, k, l, mm, l, mm))
-		fr.st.set(kd, fmt.Sprintf("(store %s %s (store (select %s %s) %s false))", d, mm, d, mm, k))
+		fr.st.setAt(kl, fmt.Sprintf("(store %s %s (ite (select (select %s %s) %s) (- (select %s %s) 1) (select %s %s)))", l, mm, d, mm, k, l, mm, l, mm), mm)
+		fr.st.setAt(kd, fmt.Sprintf("(store %s %s (store (select %s %s) %s false))", d, mm, d, mm, k), mm)
 		return Val{}
 	case "print", "println":
 		return Val{}
